@@ -69,6 +69,10 @@ type EncSpec struct {
 	To        *Cert   // certificate encrypted to
 	Filler    int     // CBC padding filler: 0 PKCS#7-style, 1 zeros, 2 random
 	Prefixed  bool    // xenc:/ds: prefixes instead of default namespaces
+	// Extra, when set, adds a second EncryptedKey wrapping the same content key (its own KeyAlg, Digest, Recipient,
+	// RecipRaw and To) at the other location: detached sibling when the main one is embedded, embedded otherwise.
+	Extra    *EncSpec
+	extraXML string
 }
 
 func (e *EncSpec) String() string {
@@ -191,11 +195,22 @@ func EncryptedAssertionXML(spec *EncSpec, plaintext []byte, dataCT, keyCT *[]byt
 			return "", err
 		}
 	}
+	if spec.Extra != nil {
+		w2, err := WrapKey(spec.Extra.To, spec.Extra.KeyAlg, spec.Extra.Digest, sym)
+		if err != nil {
+			return "", err
+		}
+		ex := *spec.Extra
+		ex.Prefixed = spec.Prefixed
+		sp2 := *spec
+		sp2.extraXML = encryptedKeyXML(&ex, base64.StdEncoding.EncodeToString(w2))
+		spec = &sp2
+	}
 	return EncryptedAssertionRaw(spec, base64.StdEncoding.EncodeToString(ct), base64.StdEncoding.EncodeToString(wrapped)), nil
 }
 
-// EncryptedAssertionRaw lays out the element from already encoded cipher values.
-func EncryptedAssertionRaw(spec *EncSpec, dataB64, keyB64 string) string {
+// encryptedKeyXML lays out one EncryptedKey element.
+func encryptedKeyXML(spec *EncSpec, keyB64 string) string {
 	x, d := "", ""
 	xdecl, ddecl := ` xmlns="`+NSXENC+`"`, ` xmlns="`+NSDS+`"`
 	if spec.Prefixed {
@@ -221,20 +236,34 @@ func EncryptedAssertionRaw(spec *EncSpec, dataB64, keyB64 string) string {
 	}
 	ek.WriteString(`<` + x + `CipherData><` + x + `CipherValue>` + keyB64 + `</` + x + `CipherValue></` + x + `CipherData>`)
 	ek.WriteString(`</` + x + `EncryptedKey>`)
+	return ek.String()
+}
+
+// EncryptedAssertionRaw lays out the element from already encoded cipher values.
+func EncryptedAssertionRaw(spec *EncSpec, dataB64, keyB64 string) string {
+	x, d := "", ""
+	xdecl, ddecl := ` xmlns="`+NSXENC+`"`, ` xmlns="`+NSDS+`"`
+	if spec.Prefixed {
+		x, d = "xenc:", "ds:"
+		xdecl, ddecl = ` xmlns:xenc="`+NSXENC+`"`, ` xmlns:ds="`+NSDS+`"`
+	}
+	ek := encryptedKeyXML(spec, keyB64)
 
 	var b strings.Builder
 	b.WriteString(`<saml:EncryptedAssertion xmlns:saml="` + NSA + `">`)
 	b.WriteString(`<` + x + `EncryptedData` + xdecl + ` Type="http://www.w3.org/2001/04/xmlenc#Element">`)
 	b.WriteString(`<` + x + `EncryptionMethod Algorithm="` + spec.DataAlg + `"/>`)
 	if !spec.Detached {
-		b.WriteString(`<` + d + `KeyInfo` + ddecl + `>` + ek.String() + `</` + d + `KeyInfo>`)
+		b.WriteString(`<` + d + `KeyInfo` + ddecl + `>` + ek + `</` + d + `KeyInfo>`)
 	} else {
-		b.WriteString(`<` + d + `KeyInfo` + ddecl + `><` + d + `RetrievalMethod URI="#ek"/></` + d + `KeyInfo>`)
+		b.WriteString(`<` + d + `KeyInfo` + ddecl + `><` + d + `RetrievalMethod URI="#ek"/>` + spec.extraXML + `</` + d + `KeyInfo>`)
 	}
 	b.WriteString(`<` + x + `CipherData><` + x + `CipherValue>` + dataB64 + `</` + x + `CipherValue></` + x + `CipherData>`)
 	b.WriteString(`</` + x + `EncryptedData>`)
 	if spec.Detached {
-		b.WriteString(ek.String())
+		b.WriteString(ek)
+	} else {
+		b.WriteString(spec.extraXML)
 	}
 	b.WriteString(`</saml:EncryptedAssertion>`)
 	return b.String()
